@@ -91,6 +91,7 @@ class FakeDtls:
         self.receiver = None
         self.relay = relay
         self.relay_rng = None
+        self.relay_heal = 0.0  # like the links, the relay only misbehaves (reorders by suspending sends) until the heal time
 
     async def _send_data(self, data):
         if self.state != "connected":
@@ -99,7 +100,7 @@ class FakeDtls:
             # behind a relay a send suspends: usually for one loop iteration, now and then for a while (a TURN channel
             # bind, a full socket buffer), during which timers and application calls interleave with the suspended caller
             d = 0
-            if self.relay_rng is not None and self.relay_rng.random() < 0.15:
+            if self.relay_rng is not None and asyncio.get_running_loop().time() < self.relay_heal and self.relay_rng.random() < 0.15:
                 d = self.relay_rng.choice([0.0005, 0.003, 0.02])
             await asyncio.sleep(d)
         self.link.send(data)
@@ -199,6 +200,7 @@ class Endpoint:
         if relay:
             import random as _random
             self.dtls.relay_rng = _random.Random(rig.rng.getrandbits(32))
+            self.dtls.relay_heal = rig.heal_at
         self.rxq = None
         self.sctp = None
         self.pump_task = None
